@@ -5,6 +5,7 @@ package main
 
 import (
 	"fmt"
+	"go/ast"
 	"go/token"
 	"go/types"
 	"strings"
@@ -283,7 +284,46 @@ func (e *Exec) applyContract(ct *Contract, fn *ssa.Function, args []Val, reach T
 		res = append(res, c.freshVal(rs.At(i).Type(), "res_"+fn.Name()))
 	}
 	post := &SpecEnv{e: e, pkg: fn.Pkg.Pkg, params: paramEnv(fn, args), cells: st.cells, old: pre, result: res}
-	for _, en := range ct.Ensures {
+	// an ensures clause of the form `result == E` defines the result: the term E is used for it
+	// (a definition enters a query only when it is needed, an assumption always)
+	defined := map[int]bool{}
+	if len(res) == 1 && len(res[0].L) == 1 {
+		for i, en := range ct.Ensures {
+			be, ok := en.E.(*ast.BinaryExpr)
+			if !ok || be.Op != token.EQL {
+				continue
+			}
+			if id, ok := be.X.(*ast.Ident); !ok || id.Name != "result" {
+				continue
+			}
+			noRes := *post
+			noRes.result = nil
+			ok2 := true
+			var v Val
+			func() {
+				defer func() {
+					if r := recover(); r != nil {
+						if _, isU := r.(unsupported); isU {
+							ok2 = false
+							return
+						}
+						panic(r)
+					}
+				}()
+				v = noRes.typed(e.evalSpec(SpecExpr{Src: en.Src, E: be.Y, Line: en.Line}, &noRes), res[0].Typ)
+			}()
+			if ok2 && len(v.L) == 1 && v.T().Sort.Eq(res[0].T().Sort) {
+				res[0] = scalar(res[0].Typ, v.T())
+				post.result = res
+				defined[i] = true
+				break
+			}
+		}
+	}
+	for i, en := range ct.Ensures {
+		if defined[i] {
+			continue
+		}
 		g := e.evalSpecBool(en, post, nil, nil)
 		c.assume(c.implies(reach, g), "ensures of "+fn.Name())
 	}
@@ -387,6 +427,72 @@ func (e *Exec) libraryCall(fn *ssa.Function, args []Val, reach Term, st *State, 
 		return res, reach
 	case "errors.New", "fmt.Errorf":
 		c.assume(c.implies(reach, c.not(c.eq(res[0].T(), Term{"nil_iface", sortIface}))), "errors.New != nil")
+	case "(*regexp.Regexp).MatchString":
+		// facts about the strings a few fixed patterns match (the pattern is read from the
+		// regexp.MustCompile call in package initialisation; the variable is checked frozen)
+		if pat, ok := e.prog.regexPatterns[args[0].Global]; ok {
+			s := args[1].T()
+			ln := c.app(bvSort(64), "strlen", s)
+			at := func(i int64) Term { return c.app(bvSort(8), "strat", s, bvLitI(64, i)) }
+			rng := func(t Term, lo, hi byte) Term {
+				return c.and(c.app(sortBool, "bvuge", t, bvLitI(8, int64(lo))), c.app(sortBool, "bvule", t, bvLitI(8, int64(hi))))
+			}
+			var fact Term
+			switch pat {
+			case "^([a-h][1-8]|-)$":
+				fact = c.or(c.and(c.eq(ln, bvLitI(64, 1)), c.eq(at(0), bvLitI(8, '-'))), c.and(c.eq(ln, bvLitI(64, 2)), rng(at(0), 'a', 'h'), rng(at(1), '1', '8')))
+			case "^[w|b]$":
+				fact = c.eq(ln, bvLitI(64, 1))
+			case "^(K?Q?k?q?|-)$":
+				fact = c.app(sortBool, "bvule", ln, bvLitI(64, 4))
+			}
+			if fact.S != "" {
+				c.assume(c.implies(c.and(reach, res[0].T()), fact), "regexp "+pat)
+				e.trusted["a string matched by the regular expression "+pat+" has the corresponding shape (fact about this pattern, assumed)"] = true
+				e.prog.mu.Lock()
+				e.prog.usedGround[strings.TrimPrefix(args[0].Global, "g:")] = true
+				e.prog.mu.Unlock()
+			}
+		}
+	case "strconv.ParseInt", "strconv.ParseUint", "strconv.ParseFloat", "strconv.ParseBool":
+		// the empty string is not a number (library contract)
+		c.assume(c.implies(c.and(reach, c.eq(c.app(bvSort(64), "strlen", args[0].T()), bvLitI(64, 0))), c.not(c.eq(res[1].T(), Term{"nil_iface", sortIface}))), "strconv: empty string is an error")
+		e.trusted["strconv.Atoi/ParseInt/... report an error for the empty string (library contract)"] = true
+	case "strconv.Atoi":
+		c.assume(c.implies(c.and(reach, c.eq(c.app(bvSort(64), "strlen", args[0].T()), bvLitI(64, 0))), c.not(c.eq(res[1].T(), Term{"nil_iface", sortIface}))), "strconv: empty string is an error")
+		e.trusted["strconv.Atoi/ParseInt/... report an error for the empty string (library contract)"] = true
+		// a one-rune string: a number exactly for the digits
+		if d, ok := c.defIdx[args[0].T().S]; ok && strings.HasPrefix(d.Body, "(str_of_rune ") {
+			r := Term{strings.TrimSuffix(strings.TrimPrefix(d.Body, "(str_of_rune "), ")"), bvSort(32)}
+			okT := c.eq(res[1].T(), Term{"nil_iface", sortIface})
+			digit := c.and(c.app(sortBool, "bvuge", r, bvLitI(32, '0')), c.app(sortBool, "bvule", r, bvLitI(32, '9')))
+			val := c.app(bvSort(64), "bvsub", e.extend(r, 64, false), bvLitI(64, '0'))
+			c.assume(c.implies(reach, c.and(c.eq(okT, digit), c.implies(okT, c.eq(res[0].T(), val)))), "strconv.Atoi of a one-rune string")
+			e.trusted["strconv.Atoi(string(r)) succeeds exactly for '0'..'9' and returns r-'0' (library contract)"] = true
+		}
+	case "strings.Index":
+		// first occurrence of a one-byte needle (library contract)
+		hay, nd := args[0].T(), args[1].T()
+		r := res[0].T()
+		one := c.eq(c.app(bvSort(64), "strlen", nd), bvLitI(64, 1))
+		ch := c.app(bvSort(8), "strat", nd, bvLitI(64, 0))
+		found := c.and(c.app(sortBool, "bvsge", r, bvLitI(64, 0)), c.app(sortBool, "bvslt", r, c.app(bvSort(64), "strlen", hay)), c.eq(c.app(bvSort(8), "strat", hay, r), ch))
+		c.assume(c.implies(c.and(reach, one), c.or(c.eq(r, bvLitI(64, -1)), found)), "strings.Index")
+		// minimality and completeness for a literal haystack
+		if hs, ok := strLitOf(c, hay); ok && len(hs) <= 64 {
+			for j := 0; j < len(hs); j++ {
+				hit := c.eq(bvLitI(8, int64(hs[j])), ch)
+				// a hit at j: the result is found and not after j
+				c.assume(c.implies(c.and(reach, one, hit), c.and(c.app(sortBool, "bvsge", r, bvLitI(64, 0)), c.app(sortBool, "bvsle", r, bvLitI(64, int64(j))))), "strings.Index first occurrence")
+			}
+		}
+		e.trusted["strings.Index(s, b) for a one-byte b: -1 or the first index with s[i] == b (library contract)"] = true
+	case "(*regexp.Regexp).Split":
+		// with n != 0 the result has at least one element (library contract)
+		c.assume(c.implies(reach, c.app(sortBool, "bvuge", res[0].L[2], bvLitI(64, 1))), "regexp Split returns >= 1 part")
+		c.assume(c.implies(reach, c.app(sortBool, "bvule", res[0].L[2], res[0].L[3])), "")
+		c.assume(c.implies(reach, c.app(sortBool, "bvult", res[0].L[3], bvLitI(64, 1<<40))), "")
+		e.trusted["regexp.Split(s, -1) returns at least one element (library contract)"] = true
 	case "strings.Split":
 		// at least one part when the separator is non-empty
 		c.assume(c.implies(reach, c.app(sortBool, "bvuge", res[0].L[2], bvLitI(64, 1))), "strings.Split returns >= 1 part")
@@ -429,6 +535,19 @@ func (e *Exec) libraryCall(fn *ssa.Function, args []Val, reach Term, st *State, 
 		}
 	}
 	return res, reach
+}
+
+func strLitOf(c *Ctx, t Term) (string, bool) {
+	name := t.S
+	if d, ok := c.defIdx[name]; ok && d.Body != "" && isAtom(d.Body) {
+		name = d.Body // a ground string variable: defined as the literal
+	}
+	for s, lt := range c.strLits {
+		if lt.S == name {
+			return s, true
+		}
+	}
+	return "", false
 }
 
 // lockKey: the ghost cell of a mutex given the pointer to it
